@@ -57,7 +57,8 @@ def evaluate(ctx, cases, tag="sem", chunk=1500):
             continue
         if impl["status"] == "machinery":
             raise lib.Machinery(f"runner failed on case {case['id']}: {impl['error']}")
-        p = {"funcs": py["prog"]["funcs"], "entry": case["entry"]}
+        p = {"funcs": py["prog"]["funcs"], "methods": {c: m for c, m in py["prog"].get("methods", {}).items() if m} or {"": {}},
+             "entry": case["entry"]}
         progs.append(p)
         pi = len(progs)
         for ai, (al, pr) in enumerate(zip(case["args"], py["runs"])):
